@@ -397,31 +397,105 @@ fn match_fields(m: &MatchResult) -> (OrderId, Vec<Transaction>, u64, bool, Vec<O
     )
 }
 
+/// Damaged variants of an encoding (cut in half, one character dropped from the middle, a
+/// dangling separator): fed to the same decoder between two decodings of the intact text, whose
+/// results must not depend on what the thread decoded (and rejected) before.
+fn damaged(s: &str) -> Vec<String> {
+    let cs: Vec<char> = s.chars().collect();
+    if cs.is_empty() {
+        return vec![";".into()];
+    }
+    let half: String = cs[..cs.len() / 2].iter().collect();
+    let mut dropped = cs.clone();
+    dropped.remove(cs.len() / 2);
+    let mut tail = cs.clone();
+    let at = cs.len() - cs.len() / 4;
+    tail.truncate(at.max(1) - 1);
+    vec![half, dropped.into_iter().collect(), tail.into_iter().collect()]
+}
+
 fn text_rt<T: FromStr + std::fmt::Display>(x: &T) -> Result<(String, T), String>
 where
     T::Err: std::fmt::Display,
 {
     let s = catch(|| x.to_string()).map_err(|m| format!("to_string panicked: {m}"))?;
-    let s2 = s.clone();
-    match catch(move || T::from_str(&s2)) {
-        Ok(Ok(y)) => Ok((s, y)),
-        Ok(Err(e)) => Err(format!("the library cannot parse its own text {:?}: {}", s, e)),
-        Err(m) => Err(format!("from_str({:?}) panicked: {m}", s)),
+    let parse = |t: &str| -> Result<T, String> {
+        let t2 = t.to_string();
+        match catch(move || T::from_str(&t2)) {
+            Ok(Ok(y)) => Ok(y),
+            Ok(Err(e)) => Err(format!("the library cannot parse its own text {:?}: {}", t, e)),
+            Err(m) => Err(format!("from_str({:?}) panicked: {m}", t)),
+        }
+    };
+    let y = parse(&s)?;
+    // decoding is a function of the text alone: rejected inputs in between change nothing
+    for d in damaged(&s) {
+        let _ = catch(move || T::from_str(&d).is_ok());
+    }
+    let y2 = parse(&s).map_err(|e| format!("{e} (second decoding, after the same decoder rejected damaged copies of this text on the same thread)"))?;
+    let again = catch(|| x.to_string()).map_err(|m| format!("to_string panicked: {m}"))?;
+    if again != s {
+        return Err(format!("printing the same value twice gives different text: {:?} then {:?}", s, again));
+    }
+    Ok((s.clone(), if hash_of(&s) & 1 == 0 { y } else { y2 }))
+}
+
+/// a writer that accepts `limit` bytes and then fails (a full disk, a closed socket)
+struct FailingWriter {
+    limit: usize,
+}
+
+impl std::io::Write for FailingWriter {
+    fn write(&mut self, buf: &[u8]) -> std::io::Result<usize> {
+        if buf.len() > self.limit {
+            self.limit = 0;
+            return Err(std::io::Error::new(std::io::ErrorKind::Other, "sink full"));
+        }
+        self.limit -= buf.len();
+        Ok(buf.len())
+    }
+    fn flush(&mut self) -> std::io::Result<()> {
+        Ok(())
     }
 }
 
 fn json_rt<T: Serialize + for<'a> Deserialize<'a>>(x: &T) -> Result<(String, T), String> {
-    let s = match catch(|| serde_json::to_string(x)) {
-        Ok(Ok(s)) => s,
-        Ok(Err(e)) => return Err(format!("serialization failed: {e}")),
-        Err(m) => return Err(format!("serialization panicked: {m}")),
+    let ser = || -> Result<String, String> {
+        match catch(|| serde_json::to_string(x)) {
+            Ok(Ok(s)) => Ok(s),
+            Ok(Err(e)) => Err(format!("serialization failed: {e}")),
+            Err(m) => Err(format!("serialization panicked: {m}")),
+        }
     };
-    let s2 = s.clone();
-    match catch(move || serde_json::from_str::<T>(&s2)) {
-        Ok(Ok(y)) => Ok((s, y)),
-        Ok(Err(e)) => Err(format!("the library cannot deserialize its own JSON {}: {}", s, e)),
-        Err(m) => Err(format!("deserializing {} panicked: {m}", s)),
+    let s = ser()?;
+    let de = |t: &str| -> Result<T, String> {
+        let t2 = t.to_string();
+        match catch(move || serde_json::from_str::<T>(&t2)) {
+            Ok(Ok(y)) => Ok(y),
+            Ok(Err(e)) => Err(format!("the library cannot deserialize its own JSON {}: {}", t, e)),
+            Err(m) => Err(format!("deserializing {} panicked: {m}", t)),
+        }
+    };
+    let y = de(&s)?;
+    // a serialization that fails part-way (the sink refuses more bytes) and rejected inputs leave
+    // nothing behind: the same value serializes to the same text and decodes again afterwards
+    let h = hash_of(&s) as usize;
+    for limit in [h % (s.len() + 1), (h >> 20) % (s.len() / 2 + 1)] {
+        let _ = catch(|| serde_json::to_writer(FailingWriter { limit }, x).is_ok());
     }
+    for d in damaged(&s) {
+        let _ = catch(move || serde_json::from_str::<T>(&d).is_ok());
+    }
+    let again = ser()?;
+    if again != s {
+        return Err(format!("serializing the same value again (after a write that failed part-way on the same thread) gives different JSON: {} then {}", s, again));
+    }
+    match catch(|| serde_json::to_vec(x)) {
+        Ok(Ok(b)) if b == s.as_bytes() => {}
+        _ => return Err(format!("serde_json::to_vec and to_string disagree for {}", s)),
+    }
+    let y2 = de(&s).map_err(|e| format!("{e} (second decoding, after rejected damaged copies on the same thread)"))?;
+    Ok((s.clone(), if h & 1 == 0 { y } else { y2 }))
 }
 
 /// The other ways serde_json hands the same JSON to a Deserialize impl: from a reader (no borrowed
